@@ -1,10 +1,12 @@
 package logging
 
 import (
+	"bufio"
 	"context"
 	"crypto/rand"
 	"encoding/hex"
 	"fmt"
+	"net"
 	"net/http"
 	"strings"
 	"time"
@@ -27,10 +29,80 @@ func RequestContextMiddleware(cfg config.LoggingConfig) func(http.Handler) http.
 			logger := enrichLogger(ctx, requestID, traceID)
 
 			ctx = contextWithLogger(ctx, logger, requestID, traceID)
+			if requestID != "" || traceID != "" {
+				iw := &idHeaderWriter{ResponseWriter: w}
+				if requestID != "" {
+					iw.ids = append(iw.ids, [2]string{requestHeader, requestID})
+				}
+				if traceID != "" {
+					iw.ids = append(iw.ids, [2]string{traceHeader, traceID})
+				}
+				w = iw
+			}
 			next.ServeHTTP(w, r.WithContext(ctx))
 		})
 	}
 }
+
+// idHeaderWriter keeps the request/trace ID headers on the final response. They are set on
+// the header map before the chain runs, but httputil.ReverseProxy clears the whole map after
+// relaying a 1xx interim response from the backend (103 Early Hints), so the final response
+// used to go out without them. They are put back, in front of any value the backend supplied,
+// when the final header is written.
+type idHeaderWriter struct {
+	http.ResponseWriter
+	ids         [][2]string
+	wroteHeader bool
+}
+
+func (w *idHeaderWriter) WriteHeader(code int) {
+	if !w.wroteHeader && (code < 100 || code > 199 || code == http.StatusSwitchingProtocols) {
+		w.wroteHeader = true
+		h := w.Header()
+		for _, id := range w.ids {
+			key := http.CanonicalHeaderKey(id[0])
+			present := false
+			for _, v := range h[key] {
+				if v == id[1] {
+					present = true
+					break
+				}
+			}
+			if !present {
+				h[key] = append([]string{id[1]}, h[key]...)
+			}
+		}
+	}
+	w.ResponseWriter.WriteHeader(code)
+}
+
+func (w *idHeaderWriter) Write(b []byte) (int, error) {
+	if !w.wroteHeader {
+		w.WriteHeader(http.StatusOK)
+	}
+	return w.ResponseWriter.Write(b)
+}
+
+// Flush implements http.Flusher
+func (w *idHeaderWriter) Flush() {
+	if !w.wroteHeader {
+		w.WriteHeader(http.StatusOK)
+	}
+	if f, ok := w.ResponseWriter.(http.Flusher); ok {
+		f.Flush()
+	}
+}
+
+// Hijack implements http.Hijacker (websockets)
+func (w *idHeaderWriter) Hijack() (net.Conn, *bufio.ReadWriter, error) {
+	if h, ok := w.ResponseWriter.(http.Hijacker); ok {
+		return h.Hijack()
+	}
+	return nil, nil, http.ErrNotSupported
+}
+
+// Unwrap lets http.ResponseController reach the underlying writer
+func (w *idHeaderWriter) Unwrap() http.ResponseWriter { return w.ResponseWriter }
 
 func handleRequestID(r *http.Request, w http.ResponseWriter, cfg config.LoggingConfig, header string) string {
 	if !cfg.RequestID.Enabled {
